@@ -7,7 +7,8 @@
 (* The first step of every history names the world: initial stakes (and, added by the  *)
 (* check, the set of operator address byte patterns).                                   *)
 EXTENDS Valset, Json
-CONSTANTS Family, EmitAt, MaxOps, StakeVecs, Amounts, DTs, Jumps, GenVersions, MaxHeight, FocusVals
+CONSTANTS Family, EmitAt, MaxOps, StakeVecs, Amounts, DTs, Jumps, GenVersions, MaxHeight, FocusVals,
+          VSet   \* which list of version strings the driver maps the version indices to (0: releases only, 1: with a pre-release just below a release)
 VARIABLES hist,
           mark      \* swap family: some validator unjailed while ANOTHER one had been jailed in the same or the previous block;
                     \* version family: a validator with an accepted keep-alive re-sent the SAME version after the minimum was raised above it
@@ -88,7 +89,7 @@ GInit == \E stk \in StakeVecs, p \in RegProfiles :
            /\ InitWith(stk, RegOf(p), {}, InitStatus(stk))
            /\ mark = FALSE
            /\ hist = <<[act |-> IF Family \in SnapFamilies THEN "InitS" ELSE "InitK",
-                        args |-> IF Family \in SnapFamilies THEN [stakes |-> stk, reg |-> p] ELSE [stakes |-> stk]]>>
+                        args |-> IF Family \in SnapFamilies THEN [stakes |-> stk, reg |-> p] ELSE [stakes |-> stk, vset |-> VSet]]>>
 Last == hist[Len(hist)]
 GView == <<Last, mark, stakingVars, snapVars, aliveVars, now>>
 GConstr == Len(hist) <= MaxOps + 1
